@@ -92,7 +92,7 @@ void h_encode_decode_bounded(void) {
     size_t pre = nondet_size_t(); __CPROVER_assume(pre <= ENC_PRE);
     for (size_t i = 0; i < ENC_PRE; i++) out0[i] = out[i];
     struct aws_byte_buf b = {.buffer = out, .len = pre, .capacity = ENC_PRE + 3 * ENC_N, .allocator = &s_unused_allocator};
-    struct aws_byte_cursor c = {.ptr = in, .len = n}; /* the NULL/0 view is unit encode_null_view */
+    struct aws_byte_cursor c = {.ptr = in, .len = n}; /* the NULL/0 view is exercised natively (native_roundtrips) */
     int r = path ? aws_byte_buf_append_encoding_uri_path(&b, &c) : aws_byte_buf_append_encoding_uri_param(&b, &c);
     __CPROVER_assert(r == AWS_OP_SUCCESS && b.buffer == out && b.capacity == ENC_PRE + 3 * ENC_N, "encoder succeeds in place when 3n bytes are free");
     /* specification: byte by byte */
